@@ -422,6 +422,12 @@ impl AssocFileData {
         let mut is_callback = false;
 
         for (count, scope) in scopes.enumerate() {
+            // the members of a class are reached through `self`, never by their bare name: inside a method a bare name
+            // is a local, a capture or a module-level variable, so a class scope must not answer for it
+            if is_callback && scope.is_class() {
+                continue;
+            }
+
             if let (true, Ok(flags)) = (
                 count >= skip,
                 Ref::filter_map(Ref::clone(&scope), |scope| scope.contains(dependency)),
